@@ -317,6 +317,48 @@ if [ $rc -eq 0 ] && [ "${VERIF_NO_ENV_PASS:-0}" != "1" ]; then
   fi
 fi
 
+# ---- test-binary pass (every tier): a tree whose non-test sources ask whether they run under `go test`
+# (testing.Testing(), the test.* flags, the ".test" suffix of os.Args[0]) behaves differently there; programs' own
+# tests use the library too, so the property must hold in a test binary. The same monitor, compiled as the test
+# binary of its package (go test -c), runs the quick-size workload; children start from the
+# same file. Nothing in the pinned tree asks, so no pass and no cost there.
+if [ $rc -eq 0 ] && [ "${VERIF_NO_TESTBIN_PASS:-0}" != "1" ] && \
+   grep -rqE --include='*.go' --exclude='*_test.go' 'testing\.Testing\(|flag\.Lookup\("test\.|"testing"|\.test"|-test\.' "$REPO" 2>/dev/null; then
+  tdir="$(mktemp -d /tmp/veriftestbin.XXXXXX)"
+  TFLAGS=()
+  if (cd "$ROOT/harness" && go test -c "${MODFLAG[@]}" "${TFLAGS[@]}" -o "$tdir/mon.test" ./cmd/mon) >/dev/null 2>&1; then
+    VERIF_TESTBIN=1 VERIF_TIER=quick VERIF_OUT="$tdir/out" VERIF_PLATFORM_PASS="testbin" VERIF_MON="$tdir/mon.test" VERIF_MON_FAST="$tdir/mon.test" \
+      run_capped "$tdir/log" timeout -s KILL 3600 "$tdir/mon.test" "$PROP"
+    trc=$?
+    echo "test-binary pass: rc=$trc $(grep -aE '^(HELD|VIOLATION|INCONCLUSIVE)' "$tdir/log" | head -1)" | cut -c1-230
+    if [ $trc -eq 1 ]; then
+      grep -aE '^witness' "$tdir/log" | head -3 | cut -c1-600
+      for f in "$tdir"/out/replays/*.json; do [ -f "$f" ] && cp "$f" "$OUTDIR/replays/testbin-$(basename "$f")"; done
+      first="$(ls "$OUTDIR"/replays/testbin-"$PROP"-*.json 2>/dev/null | head -1)"
+      echo "VIOLATION property=$PROP replay=${first:-$OUTDIR/replays}"
+      rc=1
+    fi
+    python3 - "$OUTDIR/evidence/$PROP.json" "$tdir/out/evidence/$PROP.json" "$trc" <<'PYEOF'
+import json,sys
+p,q,prc=sys.argv[1],sys.argv[2],int(sys.argv[3])
+try:
+    ev=json.load(open(p))
+    info={"how":"the same monitor compiled as the test binary of its package (testing.Testing() is true), quick-size workload, children started from the same file","exit":prc}
+    try:
+        e2=json.load(open(q)); info["evaluations"]=e2["coverage"]["evaluations"]; info["violations"]=e2.get("violations",0)
+    except Exception: pass
+    ev["coverage"]["test_binary_pass"]=info
+    if prc==1: ev["violations"]=ev.get("violations",0)+max(info.get("violations",0),1)
+    json.dump(ev,open(p,"w"),indent=1)
+except Exception as e:
+    print("could not add the test-binary pass to evidence:",e)
+PYEOF
+  else
+    echo "test-binary pass: build failed (pass skipped)"
+  fi
+  rm -rf "$tdir"
+fi
+
 # ---- race pass (thorough tier): the whole quick-size workload of this property under the race detector. The
 # library promises no shared mutable state outside uu; sixteen workers calling every entry point concurrently
 # must not produce a single report with library frames. (C19 is decided by the race detector anyway.)
